@@ -16,7 +16,7 @@ ASSUMPTIONS = [
 
 
 def write_cfg(path, depth, maxmsg, mode, liveness=False):
-    lines = ["CONSTANTS", " MaxDepth = %d" % depth, " MaxMsg = %d" % maxmsg, " UseFail = TRUE", " UseX = TRUE"]
+    lines = ["CONSTANTS", " MaxDepth = %d" % depth, " MaxMsg = %d" % maxmsg, " UseFail = TRUE", " UseX = TRUE", " UseGate = TRUE"]
     if liveness:
         lines += ["SPECIFICATION FairSpec", "CHECK_DEADLOCK FALSE", "PROPERTIES RecvReturns"]
     else:
